@@ -5,6 +5,7 @@ import (
 	"os"
 	"runtime/pprof"
 	"strings"
+	"sync/atomic"
 	"verif/internal/e1"
 
 	"verif/checks"
@@ -55,12 +56,16 @@ func main() {
 			stack = stack[:3000]
 		}
 		cls := "panic:"
-		if msg, ok := p.(string); ok && strings.HasPrefix(msg, "the step did not return") {
+		if msg, ok := p.(string); ok && strings.HasPrefix(msg, "the step ") {
 			cls = "hang:"
 		}
 		ctx.R.Violation(cls+last, fmt.Sprintf("panic %v after %s\n%s", p, strings.Join(calls, " ; "), stack), map[string]interface{}{"calls": calls})
 	}
 	c.Run(ctx)
+	if n := atomic.LoadInt64(&e1.SlowSteps); n > 0 {
+		// steps that outlived the watchdog's first look and returned later: load, not a defect
+		ctx.R.Set("steps_slower_than_the_watchdog", n)
+	}
 	pprof.StopCPUProfile()
 	ctx.R.Finish()
 }
